@@ -38,8 +38,14 @@ func init() {
 			for _, k := range keys {
 				s := e.Selfs[k]
 				bad[s.Class] = true
+				if strings.Contains(strings.ToLower(s.Chain), "ingest") {
+					c.SetTags("ingest")
+				} else {
+					c.SetTags()
+				}
 				c.Fail("self:"+e.Classes[s.Class].Name+"|"+kn(s.Func), s.Pos, "%s is acquired in %s while it is already held; chain: %s", e.Classes[s.Class].Name, s.Func, s.Chain)
 			}
+			c.SetTags("ingest")
 			for i, cl := range e.Classes {
 				if (cl.Kind == lock.Mutex || cl.Kind == lock.Token) && !bad[i] {
 					c.Pass("class:"+cl.Name, token.NoPos, "never acquired while held (%d contexts analysed)", e.Contexts)
@@ -318,6 +324,7 @@ func runLockToken(c *core.Ctx) {
 	}
 	collector := map[string]bool{}
 	seenW := map[string]bool{}
+	c.SetTags("exclusion")
 	for _, w := range e.Waits {
 		t := typeOfClass(e.Classes[w.Class].Name)
 		tok, has := tokenOfType[t]
@@ -359,6 +366,7 @@ func runLockToken(c *core.Ctx) {
 			continue
 		}
 		seenT[key] = true
+		c.SetTags("cancel")
 		switch {
 		case collector[op.Func]:
 			c.Pass(key, op.Pos, "taken by the collector")
@@ -368,6 +376,7 @@ func runLockToken(c *core.Ctx) {
 			c.Fail(key, op.Pos, "%s takes the repository token %s with a wait that cannot be cancelled: a request waiting for a running collection does not return when its context is cancelled", op.Func, e.Classes[op.Class].Name)
 		}
 	}
+	c.SetTags("exclusion")
 	seenA := map[string]bool{}
 	for _, a := range e.HoldAdds {
 		t := typeOfClass(e.Classes[a.Class].Name)
